@@ -296,8 +296,10 @@ def _check_ast(u, src_path, metadata, counters, data):
     got = sorted(_late_names(dec.ast))
     c["late_types"] += len(got)
     c["late_types_behind_alias"] += sum(1 for a, b in zip(sorted(_late_names(u)), want) if a != b)
-    if want != got:
-      bad = next(((a, b) for a, b in zip(want, got) if a != b), (len(want), len(got)))
+    # sets, not multisets: undoing aliases can make two union members equal
+    # (Union[z.R, zzz.R] with `import zzz as z`) and canonical ordering then drops one
+    if set(want) != set(got):
+      bad = (sorted(set(want) - set(got))[:3], sorted(set(got) - set(want))[:3])
       v("LateType names of the decoded AST are not the originals with module aliases undone",
         "latetype", want=repr(bad[0])[:200], got=repr(bad[1])[:200])
   # bytes
